@@ -113,6 +113,7 @@ class TileModel(Cacheable):
                          base_data_store=Rec(tiles=Rec(tiles=["stale"], tile_size=0, should_use_wide_rows=False)))
         self.objects = TileObjects(self.table)
         self.rows_seen = []
+        self.registered = []
 
     def init_table_strings(self, table_id):
         pass
@@ -133,7 +134,7 @@ class TileModel(Cacheable):
         pass
 
     def add_component_metadata(self, object_id, parent, locator):
-        pass
+        self.registered.append((object_id, parent, locator))
 
     def recalculate_row_info(self, table_id, data, tile_row_offset, row):
         self.rows_seen.append((row, tile_row_offset))
@@ -162,6 +163,12 @@ def h07b_tiles(n, wide, window):
             assert tile.rowInfos[j].row == 256 * i + j
         total += tile.numrows
     assert total == n
+    # every tile archive the save creates is referenced by the table and listed in the package metadata
+    created = [tid for tid, _ in m.objects.created]
+    assert [ref.tile.identifier for ref in tiles] == created
+    assert [r[0] for r in m.registered] == created
+    for r in m.registered:
+        assert r[1] == "CalculationEngine" and r[2] == "Tables/Tile-{}"
     assert m.table.base_data_store.tiles.tile_size == 256
     assert m.table.base_data_store.tiles.should_use_wide_rows == wide
 
